@@ -80,3 +80,26 @@ CHECKS["C15"] = {
     "assumptions": ["for master destinations id length + registered tail length must equal NN (doc comment of setAnswer)"],
     "runs": [bus("C15", ["--validate-every", 40, "--validate-maxk", 1], ["--validate-every", 200, "--validate-maxk", 2])],
 }
+
+C04_FAULT_RUN = bus("C04", ["--validate-every", 0], ["--validate-every", 0], variant="san")
+C04_SCHED_RUN = {
+    "harness": "schedmc", "variant": "schedsan",
+    "sources": ["engines/schedmc/schedmc.cpp", "engines/schedmc/vp_sched.cpp", "engines/busmc/busworld.cpp"],
+    "deps": DEPS + ["engines/schedmc/vp_sched.h", "engines/schedmc/vp_pthread_rename.h"],
+    "quick": {"parts": 16, "args": [], "deadline": 150, "bounds": "preemption bound 3, 2 client threads + bus thread, 4 client program sets x 4 bus behaviours"},
+    "thorough": {"parts": 16, "args": [], "deadline": 1200, "bounds": "preemption bound 4 (3 with 3 client threads), 7 client program sets x 4 bus behaviours, plain and enhanced"},
+}
+
+CHECKS["C04"] = {
+    "engine": "busmc+schedmc", "design_ref": "5/C04",
+    "level": "model_checking",
+    "level_text": "fault sequences: every execution with <=k injected faults/deviations (read error with device loss, reopen failure, write error, silence, "
+                  "signal loss, lost arbitration, corrupted symbols) at every I/O call and requests arriving at every read call is checked for exactly-once "
+                  "completion, correct hand-over to the waiter and no reference after completion, under ASan/UBSan; every run ends with a forced signal loss",
+    "level_note": "thread schedules are explored by the schedmc run of this check; the bus-thread part here emulates the waiter on the bus thread",
+    "technique": "fault-injection at every I/O call by deviation-bounded exhaustive exploration; preemption-bounded schedule exploration for the threaded part",
+    "rule": "scenario = device x request mix (waited / self-deleting / restarting / re-submitted, from start or arriving at any read call) x bus-lost retry setting; "
+            "all environment choice sequences with <=k faults/deviations and <=r arrivals; distinct = distinct delivered symbol sequences",
+    "assumptions": ["the waiter is emulated by polling the finished queue at every read call"],
+    "runs": [C04_FAULT_RUN, C04_SCHED_RUN],
+}
